@@ -554,8 +554,7 @@ Proof.
       cbn [g_task g_m g_ret g_res g_sterm t_pc t_rest t_sub t_sent t_selfwoke t_done m_open m_completed m_woken m_log m_wait_reg].
       rewrite Hd1. cbn [negb andb].
       split; [solve [binv_tac]|]. repeat split; auto.
-      * rewrite Ho1 in P1. simpl in P1. simpl. lia.
-      * rewrite <- EM. rewrite ?Ho1. unfold inflight. rewrite Hq1. reflexivity.
+      all: first [ (rewrite <- EM; rewrite ?Ho1; unfold inflight; rewrite Hq1; reflexivity) | (try rewrite Ho1 in P1; simpl in P1; simpl; lia) ].
     + (* closed *)
       rewrite (recv_clean_closed _ Hc1 Ho1) in Hp.
       assert (Hp' : (if negb (t_done t1)
@@ -572,11 +571,9 @@ Proof.
       * (* task returned: Complete *)
         destruct (F6 eq_refl) as (E1 & _).
         split; [solve [binv_tac]|]. repeat split; auto.
-        -- rewrite Ho1 in P1. simpl in P1. simpl. Show. lia.
-        -- rewrite <- EM. rewrite ?Ho1. unfold inflight. rewrite Hq1. reflexivity.
+        all: first [ (rewrite <- EM; rewrite ?Ho1; unfold inflight; rewrite Hq1; reflexivity) | (try rewrite Ho1 in P1; simpl in P1; simpl; lia) ].
       * split; [solve [binv_tac]|]. repeat split; auto.
-        -- simpl in P1. lia.
-        -- rewrite <- EM. rewrite ?Ho1. unfold inflight. rewrite Hq1. reflexivity.
+        all: first [ (rewrite <- EM; rewrite ?Ho1; unfold inflight; rewrite Hq1; reflexivity) | (try rewrite Ho1 in P1; simpl in P1; simpl; lia) ].
   - (* one item pushed: it is delivered by this very poll *)
     assert (Hom : m_open m = true) by (destruct (m_open m); auto; rewrite (F7 eq_refl) in Q4; discriminate).
     rewrite Hom in Bsterm; simpl in Bsterm; subst sterm.
@@ -586,7 +583,7 @@ Proof.
     cbn [g_task g_m g_ret g_res g_sterm poll_out]. unfold PhiS, pendS, blocked_on, Phi in *.
     cbn [g_task g_m g_ret g_res g_sterm t_pc t_rest t_sub t_sent t_selfwoke t_done m_open m_completed m_woken m_log m_wait_reg].
     split; [solve [binv_tac]|]. repeat split; auto.
-    all: first [ rewrite <- EM; unfold inflight; rewrite Q1, Q4; reflexivity | simpl; rewrite Q4 in P2; simpl in P2; lia ].
+    all: first [ rewrite <- EM; unfold inflight; rewrite Q1, Q4; reflexivity | simpl; try rewrite Q4 in *; simpl in *; lia ].
 Qed.
 
 Lemma poll_running : forall p st st1 r,
